@@ -17,7 +17,9 @@ MANIFEST = dict(
           "[universal] everything the transformer and the retyping hook read from a keyword (lower/upper-cased text) is case-invariant (the hook's former case-sensitive comparison is listed as fixed); ignored terminals never reach the parser; "
           "either quote kind yields the same value. [universal + finite] in every scanner Lark built (root and 56 contextual ones; scanner order and patterns checked by the kernel on the generated grammar) a C comment whose body contains no */, a # comment up to its line end, "
           "a maximal run of blanks and a maximal run of line breaks standing at a token boundary are each consumed as exactly one ignored token (sound first-character analysis of the backtracking matcher, greedy-run and lazy-until-close lemmas); "
-          "one scanner (inside {...}) takes a leading space as part of the item. PARTIAL: that the preceding token ends where the separator begins is not a theorem (it is false for unpadded C comments after PATH-like values: known finding) - "
+          "one scanner (inside {...}) takes a leading space as part of the item. [universal, Proofs/C05U*.v] lexing and parsing read positions only to record them; any sequence of separators in front of ANY text yields the same tokens, the same tree up to positions and, "
+          "through loads, the same dictionary (literally when it holds no key spelled __position__; REFUTED otherwise: an attribute spelled __type__ leaks its position record - known finding); two separator sequences between the same two tokens give the same dictionary "
+          "provided the lexer reaches that boundary in both texts. PARTIAL: that the preceding token ends where the separator begins is not a theorem (it is false for unpadded C comments after PATH-like values: known finding) - "
           "it is explored by rendering every generated document under many random layouts and by perturbing corpus files between token boundaries, on the real loads and against the extracted model."),
     design_ref="DESIGN.md 7/C05",
     note="C05: only keyword tokens are case-perturbed (enumerated VALUES keep their case in the dictionary by design); bare-word rendering is limited to words that cannot be keywords.")
